@@ -2,7 +2,7 @@
 # tools/runall.sh [tier] : run every registered check, print one line each
 cd /verif
 T=${1:-quick}
-for p in C01 C02 C03 C04 C05 C06 C07 C08 C09 C10 C11 C12 C13 C14 C15 C16 C17 C19 C20; do
+for p in ${PIDS:-C01 C02 C03 C04 C05 C06 C07 C08 C09 C10 C11 C12 C13 C14 C15 C16 C17 C19 C20}; do
   s=$(date +%s)
   out=$(./check $p --tier $T 2>&1)
   rc=$?
